@@ -9,6 +9,7 @@ pub mod c09;
 pub mod c12;
 pub mod c13;
 pub mod c14;
+pub mod c15diff;
 pub mod c18;
 pub mod c19;
 pub mod sampled;
@@ -22,6 +23,7 @@ pub fn run(name: &str, a: &Args, acc: &mut Acc) {
         "c12" => c12::run(a, acc),
         "c13" => c13::run(a, acc),
         "c14" => c14::run(a, acc),
+        "c15diff" => c15diff::run(a, acc),
         "c18" => c18::run(a, acc),
         "c19" => c19::run(a, acc),
         "c08" | "c10" | "c17" => sampled::run(name, a, acc),
@@ -38,6 +40,7 @@ pub fn replay(v: &Value) -> Result<Vec<(String, String)>, String> {
         "c12" => c12::replay(&case),
         "c13" => c13::replay(&case),
         "c14" => c14::replay(&case),
+        "c15diff" => c15diff::replay(&case),
         "c18" => c18::replay(&case),
         "c08" | "c10" | "c17" => sampled::replay(lane, &case),
         _ => Err(format!("unknown lane {lane}")),
